@@ -159,6 +159,26 @@ func runFollower(t *rapid.T, focus string) {
 		}
 	}
 
+	// settledLog: the follower's log once nothing of the current term is in flight any more (no parked sync, two
+	// identical readings 10 ms apart); ok=false when it does not settle
+	settledLog := func() ([]*proto.LogEntry, bool) {
+		if len(pending) > 0 {
+			return nil, false
+		}
+		prev, ok := f.walEntries()
+		for i := 0; ok && i < 20; i++ {
+			time.Sleep(10 * time.Millisecond)
+			cur, ok2 := f.walEntries()
+			if !ok2 {
+				return nil, false
+			}
+			if len(cur) == len(prev) {
+				return cur, true
+			}
+			prev = cur
+		}
+		return nil, false
+	}
 	t.Repeat(map[string]func(*rapid.T){
 		"election": func(t *rapid.T) {
 			drain()
@@ -285,7 +305,10 @@ func runFollower(t *rapid.T, focus string) {
 				time.Sleep(2 * time.Millisecond)
 			}
 			old := rapid.Int64Range(0, term-1).Draw(t, "olderTerm")
-			before, okBefore := f.walEntries()
+			before, okBefore := settledLog()
+			if !okBefore {
+				t.Skip("the log is not settled")
+			}
 			commitBefore := dbCommitOffset(f.kvF.Last())
 			sc, err := lrpc.SendSnapshot(context.Background(), "f", nsName, shardID, old)
 			logf("staleSnapshot(term %d)", old)
@@ -304,6 +327,71 @@ func runFollower(t *rapid.T, focus string) {
 			}
 			staleSnap = true
 			check("after a stale snapshot stream")
+		},
+		"staleTruncateOrAppend": func(t *rapid.T) {
+			// the same deposed leader tries its other two requests in its old term: a truncation, and an append on a
+			// replication stream. Both must be refused without touching the log.
+			if term < 1 {
+				t.Skip("no older term")
+			}
+			old := rapid.Int64Range(0, term-1).Draw(t, "olderTerm")
+			if stream != nil {
+				stream.s.breakStream(errUnavailable)
+				stream = nil
+				time.Sleep(2 * time.Millisecond)
+			}
+			before, okBefore := settledLog()
+			if !okBefore {
+				t.Skip("the log is not settled")
+			}
+			if rapid.Bool().Draw(t, "truncate") {
+				cut := int64(rapid.IntRange(-1, len(before)).Draw(t, "cutAt"))
+				_, err := lrpc.Truncate("f", &proto.TruncateRequest{Namespace: nsName, Shard: shardID, Term: old, HeadEntryId: &proto.EntryId{Term: old, Offset: cut}})
+				logf("staleTruncate(term %d, to %d) -> %v", old, cut, err)
+				if err == nil {
+					c.wire.violation("%s: the node (term %d) executed a truncation requested by a leader of term %d", focus, term, old)
+				}
+			} else {
+				if stream != nil {
+					stream.s.breakStream(errUnavailable)
+					stream = nil
+					time.Sleep(2 * time.Millisecond)
+				}
+				st, err := lrpc.GetReplicateStream(context.Background(), "f", nsName, shardID, old)
+				logf("staleAppend(term %d)", old)
+				if err == nil {
+					rc := st.(*repClient)
+					next := int64(len(before))
+					lev := &proto.LogEntryValue{Value: &proto.LogEntryValue_Requests{Requests: &proto.WriteRequests{Writes: []*proto.WriteRequest{{Puts: []*proto.PutRequest{{Key: "stale", Value: []byte("x")}}}}}}}
+					b, _ := lev.MarshalVT()
+					_ = rc.Send(&proto.Append{Term: old, Entry: &proto.LogEntry{Term: old, Offset: next, Value: b, Timestamp: 5}, CommitOffset: next})
+					time.Sleep(5 * time.Millisecond)
+					rc.s.breakStream(errUnavailable)
+					time.Sleep(2 * time.Millisecond)
+				}
+			}
+			after, okAfter := f.walEntries()
+			if okBefore && okAfter {
+				// entries of the current term that were still on their way may have arrived meanwhile; what must not
+				// happen: an entry lost or replaced, or the stale request's own entry stored
+				if len(after) < len(before) {
+					c.wire.violation("%s: a request of the older term %d (the node is in term %d) shortened the node's log from %d entries to %d", focus, old, term, len(before), len(after))
+				} else {
+					for i := range before {
+						if after[i].Term != before[i].Term || string(after[i].Value) != string(before[i].Value) {
+							c.wire.violation("%s: a request of the older term %d (the node is in term %d) changed the entry at offset %d", focus, old, term, after[i].Offset)
+							break
+						}
+					}
+					for _, e := range after[len(before):] {
+						if strings.Contains(string(e.Value), "stale") {
+							c.wire.violation("%s: the node (term %d) stored the entry of an append sent in the older term %d at offset %d", focus, term, old, e.Offset)
+							break
+						}
+					}
+				}
+			}
+			check("after a stale-term truncate / append")
 		},
 		"reconnect": func(t *rapid.T) {
 			if term < 0 || term == refusedTerm {
